@@ -75,6 +75,13 @@ func (w *World) Violate(rule, sig, format string, args ...interface{}) {
 	simrt.Note("VIOLATION %s %s", rule, sig)
 }
 
+// Violated reports whether an oracle failure has been recorded in this run.
+func (w *World) Violated() bool {
+	w.mu.Lock()
+	defer w.mu.Unlock()
+	return len(w.viol) > 0
+}
+
 // Count bumps a scenario counter.
 func (w *World) Count(k string) {
 	w.mu.Lock()
